@@ -25,6 +25,7 @@ func forwardPrivateStructsAll(prog *ssa.Program) int {
 		if fn.Blocks == nil || fn.Pkg == nil || !strings.HasPrefix(fn.Pkg.Pkg.Path(), modPath) {
 			continue
 		}
+		n += devirtualiseThunkCalls(fn)
 		for i := 0; i < 6; i++ {
 			k := forwardPrivateStructs(fn)
 			n += k
@@ -204,6 +205,86 @@ func forwardPrivateStructs(fn *ssa.Function) int {
 					*refs = append(*refs, in)
 				}
 			}
+		}
+	}
+	return n
+}
+
+// Calls of method-expression thunks read as the call they make.
+//
+// A method expression (Constraint.ProcessAfterUpdate, (*bbolt.DB).Update) is compiled to a synthetic thunk
+// whose body is the one call; once such a function value has been β-reduced into the place where it is
+// applied, the call site reads "thunk(recv, args...)".  This pass rewrites the call site into the call the
+// thunk makes — an interface invoke on the receiver, or the static call of the concrete method — so every
+// rule sees the same construct as when the method had been called directly.  Semantics-preserving.
+func devirtualiseThunkCalls(fn *ssa.Function) int {
+	n := 0
+	for _, b := range fn.Blocks {
+		for _, in := range b.Instrs {
+			ci, ok := in.(ssa.CallInstruction)
+			if !ok {
+				continue
+			}
+			cc := ci.Common()
+			if cc.IsInvoke() {
+				continue
+			}
+			th, _ := cc.Value.(*ssa.Function)
+			if th == nil || !strings.HasPrefix(th.Synthetic, "thunk") || len(th.Blocks) != 1 || len(th.FreeVars) != 0 || len(th.Params) == 0 || len(cc.Args) != len(th.Params) {
+				continue
+			}
+			var inner *ssa.Call
+			okBody := true
+			for _, tin := range th.Blocks[0].Instrs {
+				switch x := tin.(type) {
+				case *ssa.Call:
+					if inner != nil {
+						okBody = false
+					}
+					inner = x
+				case *ssa.Return, *ssa.DebugRef, *ssa.Extract:
+				default:
+					okBody = false
+				}
+			}
+			if !okBody || inner == nil {
+				continue
+			}
+			ic := inner.Common()
+			if ic.IsInvoke() {
+				if ic.Value != ssa.Value(th.Params[0]) || len(ic.Args) != len(th.Params)-1 {
+					continue
+				}
+				same := true
+				for i, a := range ic.Args {
+					if a != ssa.Value(th.Params[i+1]) {
+						same = false
+					}
+				}
+				if !same {
+					continue
+				}
+				cc.Value = cc.Args[0]
+				cc.Method = ic.Method
+				cc.Args = cc.Args[1:]
+				n++
+				continue
+			}
+			callee := ic.StaticCallee()
+			if callee == nil || len(ic.Args) != len(th.Params) {
+				continue
+			}
+			same := true
+			for i, a := range ic.Args {
+				if a != ssa.Value(th.Params[i]) {
+					same = false
+				}
+			}
+			if !same {
+				continue
+			}
+			cc.Value = callee
+			n++
 		}
 	}
 	return n
